@@ -55,12 +55,20 @@ def gen_addr(rnd, utf8):
 def smtp_hop(rnd, cfg):
     a, b = gsocket.socketpair()
     got = []
+    edge_rcpt = []
 
     class V(SmtpValidators):
         def handle_ehlo(self, reply, ehlo_as):
             if cfg['helo_fallback']:
                 reply.code = '500'
                 reply.message = '5.5.1 no EHLO here'
+
+        def handle_rcpt(self, reply, rcpt, params):
+            code = 550 if 'reject5' in rcpt else 450 if 'reject4' in rcpt else 250
+            edge_rcpt.append(code)
+            if code != 250:
+                reply.code = str(code)
+                reply.message = ('4.1.1' if code < 500 else '5.1.1') + ' scripted'
 
         def handle_have_data(self, reply, data):
             if cfg['reject']:
@@ -99,21 +107,36 @@ def smtp_hop(rnd, cfg):
     utf8 = cfg['ext'].get('SMTPUTF8', True) and not cfg['helo_fallback']
     sender = '' if rnd.random() < 0.15 else gen_addr(rnd, utf8)
     rcpts = [gen_addr(rnd, utf8) for _ in range(rnd.randint(1, 5))]
+    if rnd.random() < 0.3 and len(rcpts) >= 2:
+        rcpts.append(rcpts[0])                                   # the same recipient twice
+    if cfg.get('rcpt_reject'):
+        k = rnd.randrange(len(rcpts))
+        rcpts[k] = rnd.choice(['reject5', 'reject4']) + '-%d@example.com' % k
+        if len(rcpts) > 2 and rnd.random() < 0.5:
+            rcpts.insert(rnd.randrange(len(rcpts)), rcpts[0])
     hdr = rnd.choice(HEADERS)
     body = rnd.choice(BODIES)
+    if cfg.get('big'):
+        rb = random.Random(cfg['big'])
+        body = b''.join(rb.choice([b'mid.line.dots.', b'x' * rb.randint(1, 70), b'.\r\n'[:rb.randint(1, 3)], b'\r\n', b'a.b', b'..']) for _ in range(cfg['big']))
     if not (cfg['ext'].get('8BITMIME', True) and not cfg['helo_fallback']):
         hdr = hdr if hdr.isascii() else HEADERS[0]
         body = body if body.isascii() else BODIES[0]
     env = Envelope(sender, rcpts)
     env.parse(hdr + b'\r\n' + body)
     h0, b0 = env.flatten()
-    sent = {'sender': list(sender.encode('utf-8')), 'rcpts': [list(r.encode('utf-8')) for r in rcpts], 'content': list(h0 + b0)}
-    res = {'t': 'result', 'edge_code': cfg['reject'] or 250, 'relay': 'other', 'relay_code': 0}
+    accepted = [r for r in rcpts if 'reject' not in r]
+    sent = {'sender': list(sender.encode('utf-8')), 'rcpts': [list(r.encode('utf-8')) for r in accepted], 'content': list(h0 + b0)}
+    res = {'t': 'result', 'edge_code': cfg['reject'] or 250, 'relay': 'other', 'relay_code': 0, 'per': [], 'edge_per': edge_rcpt}
     try:
         with gevent.Timeout(10):
             r = relay.attempt(env, 0)
         vals = list(r.values()) if isinstance(r, dict) else [r]
-        if any(isinstance(v, PermanentRelayError) for v in vals):
+        if isinstance(r, dict):
+            res['per'] = [int(r[x].reply.code) if isinstance(r[x], (PermanentRelayError, TransientRelayError)) else 250 for x in rcpts]
+        if cfg.get('rcpt_reject') and isinstance(r, dict) and any(v is None or not isinstance(v, (PermanentRelayError, TransientRelayError)) for v in vals):
+            res.update(relay='ok', relay_code=250)
+        elif any(isinstance(v, PermanentRelayError) for v in vals):
             res.update(relay='P', relay_code=int([v for v in vals if isinstance(v, PermanentRelayError)][0].reply.code))
         elif any(isinstance(v, TransientRelayError) for v in vals):
             res.update(relay='T', relay_code=int([v for v in vals if isinstance(v, TransientRelayError)][0].reply.code))
@@ -127,6 +150,8 @@ def smtp_hop(rnd, cfg):
         res['exc'] = type(e).__name__
     gevent.sleep(0.01)
     g.kill()
+    if edge_rcpt and all(c != 250 for c in edge_rcpt):
+        res['edge_code'] = edge_rcpt[0]        # no recipient accepted: the transaction ended with the edge's RCPT replies
     ev = list(got)
     if clients:
         ev.append({'t': 'ext', 'server': [x for x in advertised], 'client': clients[-1]})
@@ -145,10 +170,13 @@ def main():
         cfg = {'ext': {'PIPELINING': rnd.random() < 0.6, '8BITMIME': rnd.random() < 0.8, 'SMTPUTF8': rnd.random() < 0.7,
                        'ENHANCEDSTATUSCODES': rnd.random() < 0.8},
                'size': rnd.choice([0, 0, 100000]), 'auth': rnd.random() < 0.3, 'helo_fallback': rnd.random() < 0.12,
-               'reject': rnd.choice([0, 0, 0, 0, 451, 554])}
+               'reject': rnd.choice([0, 0, 0, 0, 451, 554]), 'rcpt_reject': rnd.random() < 0.25,
+               'big': rnd.choice([0, 0, 0, 0, 0, 300, 2500]) if quick or rnd.random() < 0.9 else 6000}
+        if cfg['rcpt_reject']:
+            cfg['reject'] = 0
         sent, ev = smtp_hop(rnd, cfg)
         stats['executions'] += 1
-        cls = 'smtp' + ('-helo' if cfg['helo_fallback'] else '') + ('-reject' if cfg['reject'] else '')
+        cls = 'smtp' + ('-helo' if cfg['helo_fallback'] else '') + ('-reject' if cfg['reject'] else '') + ('-rcptreject' if cfg['rcpt_reject'] else '') + ('-big' if cfg['big'] else '')
         f.write(json.dumps({'id': shard + n * nshards, 'cls': cls, 'cfg': {'kind': 'smtp', 'reject': cfg['reject']}, 'sent': sent, 'ev': ev},
                            separators=(',', ':')) + '\n')
         n += 1
